@@ -134,6 +134,12 @@ def match_finding(prop, v, findings):
     return None
 
 
+def fresh_details(prop, st):
+    """Details of the violations in ``st`` that no open known finding covers (used by replays)."""
+    findings = load_findings()
+    return [v['detail'] for v in st.viol if match_finding(prop, v, findings) is None]
+
+
 # ---------------------------------------------------------------------------
 # finishing a run
 
